@@ -491,3 +491,44 @@ def c10f(ctx):
     rets = [r for r in returns_of(cl.node) if not (isinstance(r.value, ast.Constant) and r.value.value is None)]
     ok = bool(rets) and all(is_call(r.value, 'LimitedLayer') and unparse(r.value.args[1]) == 'self.coverage' for r in rets)
     ctx.check(ok, 'LimitedLayer.combined_layer:rewrapped', 'the combined layer is wrapped in LimitedLayer with the same limit', cl)
+
+
+@rule('C10.g', floor=5)
+def c10g(ctx):
+    """a limit supplied by the callback is always loaded and returned: load_limited_to(x) on the truthy edge of x, the
+    no-limit result only on its falsy edge"""
+    sites = [(WMS + ':WMSServer.authorized_layers', 'limited_to', 'coverage'),
+             (WMS + ':WMSServer.authorized_capability_layers', 'limited_to', 'coverage'),
+             (TILE + ':TileServer.authorize_tile_layer', 'limited_to', None),
+             (KML + ':KMLServer.authorize_tile_layer', 'limited_to', None),
+             (WMTS + ':WMTSServer.authorize_tile_layer', 'limited_to', None)]
+    for qn, var, target in sites:
+        fn = ctx.fn(qn)
+        g = fn.cfg
+        loads = g.find(lambda x: is_call(x, 'load_limited_to') and x.args and unparse(x.args[0]) == var)
+        truthy = lambda at: at.op is None and unparse(at.expr) == var
+        ok = bool(loads) and all(g.guarded(n, truthy, True) for n, x in loads)
+        # the "no limit" alternative (coverage = None / return None) only on the falsy edge
+        if target:
+            nones = g.find_stmts(lambda s: isinstance(s, ast.Assign) and unparse(s.targets[0]) == target and const_value(s.value, 1) is None)
+        else:
+            nones = [r for r in g.find_stmts(lambda s: isinstance(s, ast.Return) and const_value(s.value, 1) is None and s.value is not None)]
+        edges_true = g.guard_edges(truthy, True)
+        ok = ok and all(not any(n in g.reachable(d) for s, d in edges_true if _is_last_test(g, s, var)) or g.guarded(n, truthy, False) for n in nones)
+        ok = ok and all(g.guarded(n, truthy, False) for n in nones) and bool(nones)
+        ctx.check(ok, '%s:limit-loaded-when-given' % fn.short, 'load_limited_to(%s) runs iff the callback supplied a limit; "no limit" only when it did not' % var, fn,
+                  fail='a limit supplied by the authorization callback is dropped (or invented): the response is not clipped to the permitted area')
+    # the per-layer limit overrides / falls back to the global one in the tile services
+    for qn in (TILE + ':TileServer.authorize_tile_layer', KML + ':KMLServer.authorize_tile_layer', WMTS + ':WMTSServer.authorize_tile_layer'):
+        fn = ctx.fn(qn)
+        defs = Defs(fn.node)
+        vals = [unparse(v) for v, sel in defs.of('limited_to')]
+        ok = any(".get('limited_to')" in v and 'layers' in v for v in vals) and any(v.replace(' ', '') == "result.get('limited_to')" for v in vals)
+        g = fn.cfg
+        fb = g.find_stmts(lambda s: isinstance(s, ast.Assign) and unparse(s.targets[0]) == 'limited_to' and unparse(s.value).replace(' ', '') == "result.get('limited_to')")
+        ok = ok and all(g.guarded(n, lambda at: at.op is None and unparse(at.expr) == 'limited_to', False) for n in fb)
+        ctx.check(ok, '%s:layer-limit-then-global' % fn.short, 'the layer\'s own limit is used, the global limit only when the layer has none', fn)
+
+
+def _is_last_test(g, s, var):
+    return True
